@@ -144,6 +144,19 @@ theorem route_depends_on_membership (r1 r2 : List Bytes) (m : Bytes)
       simp only [List.contains_eq_mem]; exact decide_eq_decide.mpr (h i)
     rw [this]
 
+/-- **A registration takes effect for the very calls that were refused before it**: a method string answered
+    InterfaceNotFound under one table is delivered to that interface, with the same method name, under every table
+    that contains the interface. The decision is a function of the current table and the string; there is nothing in
+    between that could remember the earlier answer (the seeded change C04n cached it; stream `history`, `reroute`). -/
+theorem registration_takes_effect (regs regs' : List Bytes) (m i : Bytes)
+    (h : route regs m = .notFound i) (hreg : i ∈ regs') :
+    ∃ n, m = i ++ dot :: n ∧ route regs' m = .user i n := by
+  obtain ⟨⟨n, hm, hn⟩, hi, hne, _⟩ := (route_notFound_iff regs m i).mp h
+  exact ⟨n, hm, (route_user_iff regs' m i n).mpr ⟨hm, hn, hi, hne, hreg⟩⟩
+
+example : route [] (str "a.b.M") = .notFound (str "a.b") ∧ route [str "a.b"] (str "a.b.M") = .user (str "a.b") (str "M") := by
+  decide
+
 /-! ### Exactly one reply, connection stays usable -/
 
 theorem runActs_single_std (c : CallIn) (e : StdErr) :
